@@ -36,6 +36,25 @@ func main() {
 		os.Exit(3)
 	}
 	say("READY")
+	if len(os.Args) > 3 && os.Args[3] == "golden-write" {
+		// writes the fixed fixture content (tools/mkgolden.sh)
+		if err := so.GoldenWrite(st); err != nil {
+			say("GOLDENFAIL %v", err)
+			os.Exit(3)
+		}
+		st.Close()
+		say("DONE")
+		return
+	}
+	if len(os.Args) > 3 && os.Args[3] == "golden-observe" {
+		// prints what every read of the fixture returns (the nonce probes at the end write: run it on a copy)
+		for _, l := range so.GoldenObserve(st) {
+			say("OBS %s", l)
+		}
+		st.Close()
+		say("DONE")
+		return
+	}
 	if len(os.Args) > 3 && os.Args[3] == "migrate-only" {
 		st.Close()
 		say("DONE")
